@@ -134,14 +134,71 @@ class Index:
             return module.classes[name]
         return self.classes.get(name)
 
-    def function(self, qual: str):
-        """qual = 'quic/stream.py::QuicStreamSender.get_frame' or 'quic/packet.py::decode_packet_number'."""
+    def function(self, qual: str, registry=None):
+        """qual = 'quic/stream.py::QuicStreamSender.get_frame' or 'quic/packet.py::decode_packet_number', or a REGION
+        'quic/connection.py::QuicConnection._write_application@streams': a block contract on consecutive statements of the
+        real function, extracted mechanically on every run (see region_node)."""
         rel, name = qual.split("::")
         m = self.modules[rel]
+        if "@" in name:
+            return self.region_node(m, name, registry)
         if "." in name:
             c, f = name.split(".", 1)
             return m, m.classes[c], m.classes[c].methods[f]
         return m, None, m.functions[name]
+
+    def region_node(self, m, name, registry):
+        """Block contract: the statements starting at the contract's `anchor` (unparsed statement text / compound header,
+        optional '#n' for the n-th match; `span` consecutive statements, default 1) of the real function are wrapped,
+        unchanged, into a synthetic FunctionDef whose parameters are `self` plus the locals the contract declares in
+        `params` (the variables live at region entry).  What this drops: everything of the function outside the region -
+        the region's `requires`/`assume_pre` therefore describe the state at region entry and are NOT proved by the
+        region check; falling off the end of the region is its normal exit."""
+        fname, label = name.split("@", 1)
+        c, f = fname.split(".", 1) if "." in fname else (None, fname)
+        cls = m.classes[c] if c else None
+        fn = cls.methods[f] if cls else m.functions[f]
+        contract = registry.contracts.get(name) if registry is not None else None
+        if contract is None:
+            raise KeyError("no region contract %s" % name)
+        from .stmts import _head  # noqa
+
+        text, _, nth = contract.region["anchor"].partition("#")
+        nth = int(nth) if nth else 0
+        try:
+            norm = ast.unparse(ast.parse(text).body[0])
+        except SyntaxError:
+            try:
+                norm = _head(ast.parse(text + " pass").body[0])
+            except SyntaxError:
+                norm = text.strip()
+        found = []
+
+        def scan(body):
+            for i, st in enumerate(body):
+                if _head(st) == norm:
+                    found.append((body, i))
+                for fld in ("body", "orelse", "finalbody"):
+                    sub = getattr(st, fld, None)
+                    if isinstance(sub, list):
+                        scan(sub)
+                for h in getattr(st, "handlers", []) or []:
+                    scan(h.body)
+
+        scan(fn.body)
+        if nth >= len(found):
+            raise KeyError("region anchor %r not found in %s" % (contract.region["anchor"], fname))
+        body, i = found[nth]
+        stmts = body[i : i + int(contract.region.get("span", 1))]
+        params = ([ast.arg(arg="self")] if cls else []) + [ast.arg(arg=p) for p in contract.params if p != "self"]
+        node = ast.FunctionDef(
+            name="%s@%s" % (f, label),
+            args=ast.arguments(posonlyargs=[], args=params, kwonlyargs=[], kw_defaults=[], defaults=[]),
+            body=stmts, decorator_list=[], returns=None, lineno=stmts[0].lineno, col_offset=0,
+        )
+        node.end_lineno = stmts[-1].end_lineno
+        node.region_src = "\n".join(m.segment(st) for st in stmts)
+        return m, cls, node
 
     def find_method(self, cls: ClassInfo, name):
         seen = set()
@@ -194,4 +251,5 @@ class Index:
         return False
 
     def sha(self, module: Module, node) -> str:
-        return hashlib.sha256(module.segment(node).encode()).hexdigest()[:16]
+        src = getattr(node, "region_src", None) or module.segment(node)
+        return hashlib.sha256(src.encode()).hexdigest()[:16]
